@@ -126,7 +126,7 @@ def ob_linear(ctx, name, D, what):
     ctx.grad(f, params + [x], f"{name}.{what}: autograd == derivative w.r.t. parameters and points")
 
 
-def ob_nonrigid(ctx, name, D, what, steps=1):
+def ob_nonrigid(ctx, name, D, what, steps=1, stride=None, resize=True):
     import deepali.spatial as S
 
     ctx.round_detach = True
@@ -139,6 +139,10 @@ def ob_nonrigid(ctx, name, D, what, steps=1):
     kw = dict(stride=2) if "FreeForm" in name else {}
     if "Velocity" in name:
         kw.update(steps=steps)
+    if stride is not None:  # dense field stored on a coarser grid than the transform's own
+        kw.update(stride=stride, resize=resize)
+        if D == 2:
+            g = geom.concrete_grid(D, ctx.seed, 0, align_corners=True, sizes=(6, 4))
     t = getattr(S, name)(g, params=True, **kw)
     p0 = _vals(ctx, "p", tuple(t.params.shape))
     with torch.no_grad():
@@ -502,6 +506,10 @@ def obligations(tier: str, seed: int):
                 obs.append((f"nonrigid-{name}-{what}-D{D}", ob_nonrigid, dict(name=name, D=D, what=what)))
             if "Velocity" in name and "FreeForm" not in name:
                 obs.append((f"nonrigid-{name}-forward-steps2-D{D}", ob_nonrigid, dict(name=name, D=D, what="forward", steps=2)))
+            if "FreeForm" not in name:
+                for resize in (True, False):
+                    for what in ("forward", "disp"):
+                        obs.append((f"nonrigid-{name}-{what}-stride2-resize{int(resize)}-D{D}", ob_nonrigid, dict(name=name, D=D, what=what, stride=2, resize=resize)))
         for name in ("Translation", "RigidTransform", "AffineTransform", "DisplacementFieldTransform", "FreeFormDeformation"):
             for padding in ("zeros", "border", 0.5):
                 obs.append((f"image-transformer-{name}-{padding}-D{D}", ob_image_transformer, dict(name=name, D=D, padding=padding)))
